@@ -295,8 +295,9 @@ PairClauses(S, j) ==
 LifeClauses(S, prev, post, st) ==
   FailNames(<<
     <<"C11.blocks", S.obs.lenT % 128 = 0 /\ S.obs.lenL % 16 = 0>>,
-    <<"C11.same",   S.op = "Reopen" => (S.obs = prev.obs /\ S.d = <<>> /\ S.w = <<>>
+    <<"C11.same",   S.op = "Reopen" => (S.obs = prev.obs /\ S.d = <<>>
                                        /\ post.trie = st.trie /\ post.ls = st.ls /\ post.lastId = st.lastId)>>,
+    <<"bind.reopen.nowrite", S.op = "Reopen" => S.w = <<>>>>,
     <<"C11.answers", (S.op = "Reopen" /\ Has(S.q, "ans") /\ Has(prev.q, "ans")) => S.q.ans = prev.q.ans>>,
     <<"C11.clear",  (S.op \in {"Clear", "Recreate"} /\ Has(S.q, "fresh")) =>
                        (S.q.fresh.rawsame /\ S.q.fresh.obssame /\ S.q.fresh.anssame)>>
